@@ -76,7 +76,9 @@ type Params struct {
 	NWitKeys int
 	Embed    string // id | pow2 | mixed | huge
 	Seed     int64
-	RunTag   string // makes origins (hence log ids and counters) unique per run
+	RunTag   string            // makes origins (hence log ids and counters) unique per run
+	Sigma    []uint64          `json:"Sigma,omitempty"`   // explicit embedding (overrides Embed)
+	Origins  map[string]string `json:"Origins,omitempty"` // fixed origins (e.g. the Go SumDB's)
 }
 
 // LogW is one configured log.
@@ -144,7 +146,11 @@ func Embedding(kind string, maxSize int, rng *rand.Rand) []uint64 {
 func New(p Params) *World {
 	rng := rand.New(rand.NewSource(p.Seed))
 	w := &World{P: p, Rng: rng, Logs: map[string]*LogW{}}
-	w.Sigma = Embedding(p.Embed, p.MaxSize, rng)
+	if len(p.Sigma) == p.MaxSize+1 {
+		w.Sigma = p.Sigma
+	} else {
+		w.Sigma = Embedding(p.Embed, p.MaxSize, rng)
+	}
 	w.WitKey = ref.NewKey("witness.verif.example", "witness")
 	w.Unknown = ref.NewKey("stranger.verif.example", "stranger")
 	for _, name := range p.Logs {
@@ -152,7 +158,11 @@ func New(p Params) *World {
 		if k, ok := p.KeyOf[name]; ok {
 			keyLabel = k
 		}
-		l := &LogW{Name: name, Origin: "verif.example/" + p.RunTag + "/" + name, seed: "tree/" + name,
+		origin := "verif.example/" + p.RunTag + "/" + name
+		if o, ok := p.Origins[name]; ok {
+			origin = o
+		}
+		l := &LogW{Name: name, Origin: origin, seed: "tree/" + name,
 			Key: ref.NewKey("logkey-"+keyLabel, "log/"+keyLabel), roots: map[string][2]int{}}
 		l.ID = ref.LogID(l.Origin)
 		l.Trees = append(l.Trees, ref.NewTree(l.seed, 0, ref.NoFork, 4096))
@@ -186,7 +196,9 @@ func (w *World) ForRun(tag string, seed int64) *World {
 	c.Logs = map[string]*LogW{}
 	for name, l := range w.Logs {
 		lc := *l
-		lc.Origin = "verif.example/" + tag + "/" + name
+		if _, fixed := w.P.Origins[name]; !fixed {
+			lc.Origin = "verif.example/" + tag + "/" + name
+		}
 		lc.ID = ref.LogID(lc.Origin)
 		c.Logs[name] = &lc
 	}
